@@ -197,6 +197,15 @@ class Flow:
                 return self.root(args[-1] if OUTPUT_ITERATOR_RESULT[qn] == "last" else args[0])
             if n.tc == "ptr" or is_alias_type(n.type, n.tc) or n.get("lv"):
                 for a in args:
+                    a0 = a.strip()
+                    if a0.tc in ("int", "bool", "enum", "float") and not a0.get("lv"):
+                        continue      # a scalar passed by value carries no storage the result could point into
+                    if a0.tc in ("int", "bool", "enum", "float"):
+                        # an lvalue scalar (int& or const int&): only a reference parameter could hand its address back
+                        pm = (n.callee or {}).get("pm", [])
+                        i = args.index(a)
+                        if i >= len(pm) or pm[i] not in ("ref", "ptr"):
+                            continue
                     out |= self.root(a)
             return out
         if k in ("CXXConstructExpr", "CXXTemporaryObjectExpr"):
